@@ -81,7 +81,7 @@ NoCode == 999
 AnyCode == 998
 St0(n) == [fs |-> [f \in 1..n |-> 0], poss |-> [f \in 1..n |-> {0}], win |-> [f \in 1..n |-> {0}],
            inscan |-> FALSE, par |-> "run", child |-> "none", code |-> NoCode, pend |-> NoCode, nsp |-> 0,
-           scans |-> 0, slept |-> FALSE, mains |-> 0, v |-> "ok", d |-> "", k |-> 0]
+           scans |-> 0, slept |-> FALSE, mains |-> 0, v |-> "ok", d |-> "", k |-> 0, wf |-> 0]
 
 May(cl, st, f)   == /\ cl[f] \in {"watched", "optional"}
                     /\ \E r \in st.poss[f], v \in st.win[f] : r # 0 /\ v # 0 /\ v # r
@@ -148,7 +148,7 @@ EvScanEnd(x, cl, st, e) ==
   ELSE IF e.s = "ok" THEN
      \* "restarts the server if any of the observed files change": a scan over a file that this child has seen, that is
      \* observed and whose mtime is newer during the whole scan cannot end quietly
-     IF \E f \in 1..n : Must(cl, st, f) THEN Rej(s0, "ChangeMissed")
+     IF \E f \in 1..n : Must(cl, st, f) THEN [Rej(s0, "ChangeMissed") EXCEPT !.wf = CHOOSE f \in 1..n : Must(cl, st, f)]
      ELSE LET p2 == [f \in 1..n |-> PossUpd(st, f)]
               s1 == [s0 EXCEPT !.poss = p2]
               s2 == IF \E f \in 1..n : Older(cl, st, f) THEN Drift(s1, "an older mtime than the recorded one is not acted on (mtime > recorded)") ELSE s1
@@ -189,7 +189,7 @@ Run(x, cl, st, k) == IF k > Len(x.ev) \/ st.v # "ok" THEN st
 EvalCase(x) == LET n  == Len(x.files)
                    cl == [f \in 1..n |-> ClsOf(x, f)]
                    st == Run(x, cl, St0(n), 1)
-               IN  <<st.v, st.d, st.k>>
+               IN  <<st.v, st.d, st.k, st.wf>>
 
 \* ------------------------------------------------------------------------------ _get_args_for_reloading
 \* "Determine how the script was executed, and return the args needed to execute it again in a new process."
@@ -201,25 +201,25 @@ DASH_M == <<45, 109>>
 EvalArgs(x) == LET want == CASE x.kind = "modern" -> <<x.exe>> \o x.rest
                              [] x.kind \in {"script", "script_abs"} -> <<x.exe, x.script>> \o x.rest
                              [] OTHER -> <<x.exe, DASH_M, x.mod>> \o x.rest
-               IN  <<IF x.exc # "" \/ x.got # want THEN "ArgsReconstructInvocation" ELSE "ok", "", 0>>
+               IN  <<IF x.exc # "" \/ x.got # want THEN "ArgsReconstructInvocation" ELSE "ok", "", 0, 0>>
 
 \* ------------------------------------------------------------------------------ ensure_echo_on
 \* "Ensure that echo mode is enabled. Some tools such as PDB disable it which causes usability issues after a reload."
 \* ("tcgetattr will fail if stdin isn't a tty"; CHANGES 1.0: "The reloader doesn't crash if sys.stdin is somehow None.")
 EvalEcho(x) == <<IF x.exc # "" THEN "EchoNoCrash"
                  ELSE IF x.kind \in {"echo_off", "echo_on"} /\ x.after # 1 THEN "EchoEnabled" ELSE "ok",
-                 IF x.kind \in {"echo_off", "echo_on"} /\ x.same # 1 THEN "ensure_echo_on changed other terminal attributes" ELSE "", 0>>
+                 IF x.kind \in {"echo_off", "echo_on"} /\ x.same # 1 THEN "ensure_echo_on changed other terminal attributes" ELSE "", 0, 0>>
 
 Eval(x) == CASE x.op = "case" -> EvalCase(x)
              [] x.op = "args" -> EvalArgs(x)
              [] x.op = "echo" -> EvalEcho(x)
-             [] x.op = "glob" -> <<"ok", IF Glob(x.pat, x.s) # x.got THEN "glob-selftest" ELSE "", 0>>
-             [] OTHER -> <<"ok", "", 0>>
+             [] x.op = "glob" -> <<"ok", IF Glob(x.pat, x.s) # x.got THEN "glob-selftest" ELSE "", 0, 0>>
+             [] OTHER -> <<"ok", "", 0, 0>>
 
 Init == l = 1
 Next == /\ l <= Len(Lines)
         /\ LET x == Lines[l]  r == Eval(x) IN
-           /\ IF r[1] = "ok" THEN TRUE ELSE PrintT(ToJson([reject |-> 1, t |-> x.t, i |-> x.i, clause |-> r[1], step |-> r[3]]))
+           /\ IF r[1] = "ok" THEN TRUE ELSE PrintT(ToJson([reject |-> 1, t |-> x.t, i |-> x.i, clause |-> r[1], step |-> r[3], file |-> r[4]]))
            /\ IF r[2] = "" THEN TRUE ELSE PrintT(ToJson([drift |-> 1, t |-> x.t, i |-> x.i, what |-> r[2]]))
         /\ l' = l + 1
 Done == PrintT(ToJson([judged |-> Len(Lines)])) /\ TLCGet("generated") >= 0
